@@ -57,6 +57,9 @@ type RWMutex struct {
 	w bool
 	r int
 	n sync.RWMutex
+	// readers release into an object of their own: a read lock synchronises with writers, not with
+	// other readers (two read-side critical sections are not ordered by happens-before)
+	rd byte
 }
 
 func (m *RWMutex) Lock() {
@@ -66,6 +69,7 @@ func (m *RWMutex) Lock() {
 	}
 	vs.Wait("Lock", unsafe.Pointer(m), func() bool { return !m.w && m.r == 0 })
 	m.w = true
+	vs.Event("Lock(readers)", unsafe.Pointer(&m.rd), true, false)
 }
 func (m *RWMutex) Unlock() {
 	if !vs.Active() {
@@ -90,7 +94,7 @@ func (m *RWMutex) RUnlock() {
 		return
 	}
 	m.r--
-	vs.Event("RUnlock", unsafe.Pointer(m), false, true)
+	vs.Event("RUnlock", unsafe.Pointer(&m.rd), false, true)
 }
 func (m *RWMutex) RLocker() Locker { return (*rlocker)(m) }
 
